@@ -629,13 +629,19 @@ class PathRunner:
         self.pc.append(term)
         self.solver.add(term)
 
+    RLIMIT_PER_MS = 5000     # z3 resource units per millisecond on the reference machine (measured: ~4.9M / s)
+
     def _check(self, *assumptions, timeout=None):
+        """Budgets are given in milliseconds of the reference machine but enforced through z3's deterministic resource
+        counter (rlimit), so that verdicts do not flip when the machine is loaded; the wall-clock timeout (6x) and the
+        watchdog are only safety nets."""
         t0 = time.time()
-        if timeout:
-            self.solver.set('timeout', timeout)
-        # z3 does not always honour its own timeout on quantified problems: a watchdog interrupts the context
+        ms = timeout or self.budget.feas_ms
+        self.solver.set('rlimit', int(ms * self.RLIMIT_PER_MS))
+        self.solver.set('timeout', int(ms * 6 + 500))
+        # z3 does not always honour its own limits on quantified problems: a watchdog interrupts the context
         import threading
-        wd = threading.Timer((timeout or self.budget.feas_ms) / 1000.0 + 2.0, self.solver.ctx.interrupt)
+        wd = threading.Timer(ms * 6 / 1000.0 + 3.0, self.solver.ctx.interrupt)
         wd.daemon = True
         wd.start()
         try:
@@ -644,8 +650,6 @@ class PathRunner:
             r = z3.unknown
         finally:
             wd.cancel()
-        if timeout:
-            self.solver.set('timeout', self.budget.feas_ms)
         self.solver_seconds += time.time() - t0
         self.queries += 1
         return r
@@ -790,7 +794,8 @@ class PathRunner:
         t0 = time.time()
         try:
             s = z3.Solver()
-            s.set('timeout', self.budget.obl_ms)
+            s.set('rlimit', int(self.budget.obl_ms * self.RLIMIT_PER_MS))
+            s.set('timeout', self.budget.obl_ms * 6)
             s.add(*self.pc)
             s.add(neg)
             r = s.check()
